@@ -192,3 +192,22 @@ Proof.
     intros X. apply beq_spec in X. vm_compute in X. discriminate.
   - apply (PE_send cB cA 6); [ns | ns | lt64].
 Qed.
+
+(** the loss of the highest acknowledged sequence is noticed by clean requests ONLY:
+    with no clean point in the store (highest acknowledged sequences may be there), every
+    history without clean requests gives the same results, and stores equal outside
+    maxAckSeq/, on the chain and on the chain restarted from its export *)
+Theorem C16_continuation_equal_modulo_max_ack :
+  forall (A : Type) (H : bytes -> bytes) (has_route : bytes -> bool)
+         (on_recv : A -> packet -> option (A * option bytes)) (on_ack : A -> packet -> bytes -> option A)
+         (c : chain A) (ops : list (op A)),
+    no_clean_points (c_kv A c) -> Forall (no_clean_op A) ops ->
+    run_log A H has_route on_recv on_ack c ops = run_log A H has_route on_recv on_ack (reimport_chain A c) ops /\
+    (forall k, is_maxack k = false ->
+               lookup k (c_kv A (run A H has_route on_recv on_ack c ops)) =
+               lookup k (c_kv A (run A H has_route on_recv on_ack (reimport_chain A c) ops))) /\
+    c_clients A (run A H has_route on_recv on_ack c ops) = c_clients A (run A H has_route on_recv on_ack (reimport_chain A c) ops) /\
+    c_rules A (run A H has_route on_recv on_ack c ops) = c_rules A (run A H has_route on_recv on_ack (reimport_chain A c) ops) /\
+    c_app A (run A H has_route on_recv on_ack c ops) = c_app A (run A H has_route on_recv on_ack (reimport_chain A c) ops).
+Proof. exact continuation_equal_modulo_max_ack. Qed.
+Print Assumptions C16_continuation_equal_modulo_max_ack.
